@@ -2,10 +2,12 @@
 from vivarium.core.process import Process
 from harness.parviews import digest
 
+CTX = {}      # serial runs: the engine, so that a process can look at the hierarchy at the moment it is invoked
+
 
 class Viewer(Process):
     name = 'parviews-viewer'
-    defaults = {'dt0': 1.0}
+    defaults = {'dt0': 1.0, 'ctx': None}
 
     def __init__(self, parameters=None):
         super().__init__(parameters)
@@ -17,7 +19,8 @@ class Viewer(Process):
                 'report': {'_output': True,
                            'ct': {'_default': '', '_updater': 'set'},
                            'uc': {'_default': '', '_updater': 'set'},
-                           'nu': {'_default': '', '_updater': 'set'}}}
+                           'nu': {'_default': '', '_updater': 'set'},
+                           'now': {'_default': '', '_updater': 'set'}}}
 
     def calculate_timestep(self, states):
         self.ct = digest(states)
@@ -28,7 +31,13 @@ class Viewer(Process):
         return True
 
     def next_update(self, timestep, states):
-        return {'report': {'ct': self.ct, 'uc': self.uc, 'nu': digest(states)}}
+        now = ''
+        eng = CTX.get(self.parameters.get('ctx'))
+        if eng is not None:
+            st = eng.state.get_value()
+            now = digest({'agents': {k: {'x': v['x']} for k, v in st['agents'].items()},
+                          'clock': {'dt': st['clock']['dt']}, 'report': {}})
+        return {'report': {'ct': self.ct, 'uc': self.uc, 'nu': digest(states), 'now': now}}
 
 class Feeder(Process):
     name = 'parviews-feeder'
